@@ -9,19 +9,20 @@ var borrowed = []struct {
 	dst, src, engine string
 	env              string // extra environment for the borrowed engine (restricts it to the workload the borrower needs)
 }{
-	{"C02", "C15", "coop", ""},                        // flow rule switches under live traffic
-	{"C13", "C15", "coop", ""},                        // concurrent loads / clears: reported == enforced
-	{"C14", "C15", "coop", ""},                        // an unchanged rule must stay in force while the list is being rebuilt
-	{"C07", "C15", "coop", ""},                        // concurrent loads of the system rule set: what is remembered as loaded is what gates inbound traffic
-	{"C03", "C12", "coop", ""},                        // the breaker's state machine under concurrent callers
-	{"C02", "C09", "coop", ""},                        // the window a reject rule reads must not lose / invent tokens around a bucket rollover
-	{"C15", "C14", "seq", ""},                         // "updating the rules of one resource never affects decisions on another": loads / clears of a referenced resource
-	{"C16", "C01", "par", ""},                         // "told of completion exactly once" also when Exit is called from two goroutines at once
-	{"C08", "C09", "coop", ""},                        // "nothing inside the window is lost" also when the rollover is contended
-	{"C07", "C01", "par", ""},                         // the inbound in-flight count the rules read stays exact (never negative) also when a rule check panics
-	{"C07", "C09", "coop", ""},                        // the inbound QPS / RT windows the rules read lose nothing around a contended bucket rollover
-	{"C12", "C03", "seq", "VERIF_C03_FAMILY=modify"},  // "no half-open before a full retry timeout" also when the rule of an open breaker is modified (that family only: the reference machine of C03 admits the probe AT the deadline, which C12 does not ask for)
-	{"C05", "C14", "seq", "VERIF_C14_FAMILY=hotspot"}, // "scheduled at least duration/threshold apart" also across a reload that keeps the rule's statistic (hot-parameter families only)
+	{"C02", "C15", "coop", ""},                               // flow rule switches under live traffic
+	{"C13", "C15", "coop", ""},                               // concurrent loads / clears: reported == enforced
+	{"C14", "C15", "coop", ""},                               // an unchanged rule must stay in force while the list is being rebuilt
+	{"C07", "C15", "coop", ""},                               // concurrent loads of the system rule set: what is remembered as loaded is what gates inbound traffic
+	{"C03", "C12", "coop", ""},                               // the breaker's state machine under concurrent callers
+	{"C02", "C09", "coop", ""},                               // the window a reject rule reads must not lose / invent tokens around a bucket rollover
+	{"C15", "C14", "seq", ""},                                // "updating the rules of one resource never affects decisions on another": loads / clears of a referenced resource
+	{"C16", "C01", "par", ""},                                // "told of completion exactly once" also when Exit is called from two goroutines at once
+	{"C08", "C09", "coop", ""},                               // "nothing inside the window is lost" also when the rollover is contended
+	{"C07", "C01", "par", ""},                                // the inbound in-flight count the rules read stays exact (never negative) also when a rule check panics
+	{"C07", "C09", "coop", ""},                               // the inbound QPS / RT windows the rules read lose nothing around a contended bucket rollover
+	{"C12", "C03", "seq", "VERIF_C03_FAMILY=modify"},         // "no half-open before a full retry timeout" also when the rule of an open breaker is modified (that family only: the reference machine of C03 admits the probe AT the deadline, which C12 does not ask for)
+	{"C04", "C15", "coop", "VERIF_RULESCO_MODULE=isolation"}, // "rejected iff in-flight + b > N" while rules of OTHER resources are loaded and cleared (isolation module only)
+	{"C05", "C14", "seq", "VERIF_C14_FAMILY=hotspot"},        // "scheduled at least duration/threshold apart" also across a reload that keeps the rule's statistic (hot-parameter families only)
 }
 
 func init() {
